@@ -76,6 +76,7 @@ def case(draw, tier):
         c["reverse"] = draw(st.booleans())
     if op == "valuecounts":
         c["key"] = draw(st.sampled_from(["k", ("k", "j")]))
+        c["vc_missing"] = draw(st.sampled_from([None, None, "M", 0]))   # what a short row's absent cell counts as
     return c
 
 
@@ -211,8 +212,8 @@ def _check(case, ctx):
             form = case["form"]
             spec = collections.OrderedDict(MULTI) if form == "ordereddict" else dict(MULTI) if form == "dict" else None
             if form == "list":
-                # documented list form: list of (outfield, spec...) is not supported; use OrderedDict built from a list
-                spec = collections.OrderedDict(list(MULTI))
+                # the list form: flat tuples (outfield, aggfun) / (outfield, srcfield) / (outfield, srcfield, aggfun)
+                spec = [(n_,) + (sp_ if isinstance(sp_, tuple) else (sp_,)) for n_, sp_ in MULTI]
             if form in ("setitem", "setitem-late"):
                 agg = etl.aggregate(src, petl_key, **kw)
                 for i, (n_, sp_) in enumerate(MULTI):
@@ -323,9 +324,11 @@ def _check(case, ctx):
         else:  # valuecounts / valuecounter
             fields = [key] if isinstance(key, str) else list(key)
             idx = [H.index(f) for f in fields]
-            vals = [R.keyof(r, idx) for r in tbl[1:]]
+            vm = case.get("vc_missing")
+            mkw = {} if vm is None else {"missing": vm}
+            vals = [R.keyof(r, idx, vm) for r in tbl[1:]]
             cnt = collections.Counter(vals)
-            got = _rows2(etl.valuecounts(src, *fields))
+            got = _rows2(etl.valuecounts(src, *fields, **mkw))
             if got[:1] != [tuple(fields) + ("count", "frequency")]:
                 return fail("header", got[:1], fields)
             gotc = {}
@@ -340,7 +343,7 @@ def _check(case, ctx):
                 return fail("counts", gotc, dict(cnt))
             if sum(gotc.values()) != nrows:
                 return fail("count-sum", gotc, nrows)
-            vc = etl.valuecounter(codec.snapshot(tbl), *fields)
+            vc = etl.valuecounter(codec.snapshot(tbl), *fields, **mkw)
             if dict(vc) != dict(cnt):
                 return fail("valuecounter", dict(vc), dict(cnt))
     except _PassDiffers as ex:
